@@ -21,6 +21,15 @@ HARNESS_DIR = os.path.join(VERIF, "kani_harnesses")
 TARGETS = {
     "raw_layout.rs": "src/cache/raw.rs",
     "java_tables.rs": "src/java.rs",
+    "cache_cx.rs": "src/cache/mod.rs",
+    "mapper_cx.rs": "src/mapper.rs",
+}
+
+# counterexample kernels: (source file, function) -> harness; they are EXPECTED to pass on a correct tree and are only run when
+# a Verus arithmetic obligation of that function failed, to obtain concrete values
+CX_KERNELS = {
+    ("src/cache/mod.rs", "iterate_with_lines"): "cx_cache_iterate_with_lines",
+    ("src/mapper.rs", "iterate_with_lines"): "cx_mapper_iterate_with_lines",
 }
 
 # harness name -> (file, bounded-note or None)
@@ -31,6 +40,8 @@ HARNESSES = {
     "k2_format_constants": ("raw_layout.rs", None),
     "k9_parse_error_kinds_le96": ("raw_layout.rs", "buffer length <= 96 bytes (contents and all six header fields fully symbolic)"),
     "k3_java_base_types": ("java_tables.rs", None),
+    "cx_cache_iterate_with_lines": ("cache_cx.rs", None),
+    "cx_mapper_iterate_with_lines": ("mapper_cx.rs", None),
 }
 
 
@@ -64,7 +75,7 @@ def make_scratch():
     return base, d, appended
 
 
-def run_jobs(names, tier="quick", timeout=420):
+def run_jobs(names, tier="quick", timeout=420, playback=False):
     names = [n for n in names if n in HARNESSES]
     if not names:
         return []
@@ -74,6 +85,8 @@ def run_jobs(names, tier="quick", timeout=420):
     try:
         base, d, appended = make_scratch()
         cmd = ["cargo", "kani", "-Z", "function-contracts", "-Z", "stubbing", "--output-format", "terse"]
+        if playback:
+            cmd += ["-Z", "concrete-playback", "--concrete-playback=print"]
         for n in names:
             cmd += ["--harness", n]
         env = dict(os.environ, CARGO_NET_OFFLINE="true", CARGO_TARGET_DIR=os.path.join(base, "target"))
@@ -104,8 +117,9 @@ def run_jobs(names, tier="quick", timeout=420):
             nf, nc = (int(m.group(1)), int(m.group(2))) if m else (0 if ok else 1, 1)
             fails = re.findall(r"(?m)^Failed Checks: (.*)$", b)
             vt = re.search(r"Verification Time: ([0-9.]+)s", b)
+            pb = re.search(r"Concrete playback unit test for.*?```\s*(.*?)```", b, re.S)
             seen[hname] = {"ok": ok, "failed": failed, "checks": nc, "nfailed": nf, "failed_checks": "; ".join(fails)[:600],
-                           "cbmc_s": float(vt.group(1)) if vt else None, "tail": b[-1500:]}
+                           "cbmc_s": float(vt.group(1)) if vt else None, "tail": b[-1500:], "playback": pb.group(1).strip() if pb else None}
         for n in names:
             s = seen.get(n)
             bounded = HARNESSES[n][1]
@@ -117,7 +131,7 @@ def run_jobs(names, tier="quick", timeout=420):
                 r.update(status="ok", checks=s["checks"], failed=0, cbmc_s=s["cbmc_s"])
             elif s["failed"]:
                 r.update(status="failed", checks=s["checks"], failed=s["nfailed"], failed_checks=s["failed_checks"],
-                         output_tail=s["tail"], cbmc_s=s["cbmc_s"], site=TARGETS[HARNESSES[n][0]])
+                         output_tail=s["tail"], cbmc_s=s["cbmc_s"], site=TARGETS[HARNESSES[n][0]], concrete=s.get("playback"))
             else:
                 r.update(status="undecided", reason="kani produced neither SUCCESSFUL nor FAILED: " + s["tail"][-400:])
             results.append(r)
